@@ -6,6 +6,7 @@
   each input, and the selected encoder's rendering of each value, are given.
 -/
 import Gojq.Proofs.Process
+import Gojq.Proofs.Flags
 namespace Gojq.C15
 open Gojq Gojq.Process
 
@@ -174,6 +175,66 @@ theorem raw_output0_rejects_nul (o : Opts) (v : Val) (s : Bytes) (pre post : Lis
   have hm : marshal o v = none := by simp [marshal, h0, hs, hnul]
   refine ⟨hm, ?_⟩
   simp only [process, printValues_append o pre _ st hpre, printValues, hm]
+
+/-! ## flags (cli/flags.go parseFlags, Model/Cli/Flags.lean) -/
+
+section flags
+open Gojq.Flags
+
+/-- Bundled short flags: `-rce…` made of boolean short flags means `-r -c -e …`. -/
+theorem flags_bundled_shorts (st : PS) (c : Char) (cs : List Char) (tl : List Str)
+    (h : ∀ d ∈ c :: cs, BoolShort d) (hd : st.optsDone = false) :
+    parse st (('-' :: c :: cs) :: tl) = parse st ((c :: cs).map (fun d => ['-', d]) ++ tl) := by
+  rw [parse_bundle st c cs tl h hd, parse_bools_seq (c :: cs) st tl h hd]
+
+/-- `--flag=value` means `--flag value` for every long flag that takes a value
+    (`--indent`, `--library-path`, and the name of the four map flags). -/
+theorem flags_long_eq (st : PS) (v : Str) (tl : List Str) (hd : st.optsDone = false) :
+    parse st (('-' :: '-' :: ("indent".toList ++ '=' :: v)) :: tl) = parse st (('-' :: '-' :: "indent".toList) :: v :: tl) ∧
+    parse st (('-' :: '-' :: ("library-path".toList ++ '=' :: v)) :: tl) =
+      parse st (('-' :: '-' :: "library-path".toList) :: v :: tl) ∧
+    (∀ f ∈ mapFlagNames, parse st (('-' :: '-' :: (f ++ '=' :: v)) :: tl) = parse st (('-' :: '-' :: f) :: v :: tl)) :=
+  ⟨parse_indent_eq st v tl hd, parse_lib_eq st v tl hd, fun f hf => parse_map_eq st f v tl hf hd⟩
+
+/-- After `--` nothing is a flag: every later argument is a free argument, whatever it looks
+    like. -/
+theorem flags_double_dash (st : PS) (as : List Str) (hd : st.optsDone = false) :
+    parse st (['-', '-'] :: as) = .ok (as.foldl addFree { st with optsDone := true }).out := by
+  rw [parse_dashdash st as hd, parse_all_free as _ rfl]
+
+/-- Positional capture: after `--args` the first free argument is still the query, the
+    following free arguments are `$ARGS.positional`, in order. -/
+theorem flags_positional_capture (q : Str) (xs : List Str) (hq : q.head? ≠ some '-')
+    (hxs : ∀ x ∈ xs, x.head? ≠ some '-') :
+    parseFlags ("--args".toList :: q :: xs) = .ok { rest := [q], args := xs.map some } :=
+  positional_capture q xs hq hxs
+
+/-- First binding of a name wins, across the four map flags: for any sequence of
+    `--arg | --argjson | --slurpfile | --rawfile  name value` triples (names and values arbitrary
+    strings, even flag-like ones), parsing succeeds, each name is bound exactly once, and
+    looking a name up finds the flag and value of its FIRST occurrence on the command line;
+    nothing else is set. -/
+theorem flags_first_binding_wins (bs : List (Str × Str × Str)) (hbs : ∀ b ∈ bs, b.1 ∈ mapFlagNames) :
+    ∃ p, parseFlags (argsOf bs) = .ok p ∧
+      (∀ n, p.maps.find? (fun b => b.2.1 == n) = bs.find? (fun b => b.2.1 == n)) ∧
+      p.maps.Pairwise (fun a b => a.2.1 ≠ b.2.1) ∧
+      p.bools = [] ∧ p.indent = none ∧ p.libs = [] ∧ p.args = [] ∧ p.jsonargs = [] ∧ p.rest = [] := by
+  have hk : KeysOK ({} : PS) := by intro n; simp
+  have hp := parse_bindings bs {} [] hbs rfl
+  simp only [List.append_nil] at hp
+  refine ⟨(bindAll {} bs).out, ?_, ?_, ?_, ?_⟩
+  · unfold parseFlags; rw [hp]; rfl
+  · intro n; simpa using bindAll_find bs {} hk n
+  · exact bindAll_nodup bs {} hk List.Pairwise.nil
+  · obtain ⟨a1, a2, a3, a4, a5, a6⟩ := bindAll_other bs {}
+    exact ⟨a1, a2, a3, a4, a5, a6⟩
+
+example : parseFlags ["-rc".toList, "--indent=3".toList, ".".toList] =
+    .ok { bools := ["raw-output".toList, "compact-output".toList], indent := some 3, rest := [".".toList] } := by rfl
+example : BoolShort 'r' ∧ BoolShort 'e' := ⟨⟨_, rfl, rfl⟩, ⟨_, rfl, rfl⟩⟩
+example : "arg".toList ∈ mapFlagNames := by decide
+
+end flags
 
 /-! Non-vacuity -/
 def vNull : Val := ⟨true, none, [110, 117, 108, 108]⟩
